@@ -20,6 +20,12 @@ pub enum PersisterKind {
 
 impl PersisterKind {
     pub async fn append(&self, path: &str, bytes: &[u8]) -> Result<(), IggyError> {
+        #[cfg(feature = "verif")]
+        if crate::verif::persister_fault("append", path) {
+            return Err(IggyError::CannotAppendToFile);
+        }
+        #[cfg(feature = "verif")]
+        let _verif = crate::verif::fs_event_on_drop("persister_append", path);
         match self {
             PersisterKind::File(p) => p.append(path, bytes).await,
             PersisterKind::FileWithSync(p) => p.append(path, bytes).await,
@@ -29,6 +35,12 @@ impl PersisterKind {
     }
 
     pub async fn overwrite(&self, path: &str, bytes: &[u8]) -> Result<(), IggyError> {
+        #[cfg(feature = "verif")]
+        if crate::verif::persister_fault("overwrite", path) {
+            return Err(IggyError::CannotOverwriteFile);
+        }
+        #[cfg(feature = "verif")]
+        let _verif = crate::verif::fs_event_on_drop("persister_overwrite", path);
         match self {
             PersisterKind::File(p) => p.overwrite(path, bytes).await,
             PersisterKind::FileWithSync(p) => p.overwrite(path, bytes).await,
@@ -38,6 +50,8 @@ impl PersisterKind {
     }
 
     pub async fn delete(&self, path: &str) -> Result<(), IggyError> {
+        #[cfg(feature = "verif")]
+        let _verif = crate::verif::fs_event_on_drop("persister_delete", path);
         match self {
             PersisterKind::File(p) => p.delete(path).await,
             PersisterKind::FileWithSync(p) => p.delete(path).await,
